@@ -1,6 +1,7 @@
 import PoolProofs.C08Lemmas
 import PoolProofs.C08I3Lemmas
 import PoolProofs.C08I2Lemmas
+import PoolProofs.C08I2Pres
 /-!
 # C08 — the stored account always matches a real output; lifecycle moves are legal
 
@@ -347,6 +348,42 @@ theorem C08_I2_init (s : AState) (v e ver h : Nat) (f : Option (Nat × Nat))
 confirmation moves the account (`handleStateOpen` arms spend + expiry) -/
 theorem C08_I2_conf (s : AState) (h : Nat) (i2 : Inv2 s) : Inv2 (step s (.confDirect h)).1 :=
   handleConf_inv2 s h i2
+
+/-- one step of any op preserves I2, given I1 and the environment conditions `EnvOK` (A3 for delivered
+spends; a bare batch completion must find the staged copy watched – the open finding
+`C08/complete-without-rewatch` is exactly the failure of that condition) -/
+theorem C08_step_preserves_I2 (s : AState) (op : Op) (h1 : Inv1 s) (h2 : Inv2 s) (henv : EnvOK s op) :
+    Inv2 (step s op).1 := Inv2.step h2 h1 op henv
+
+/-- histories whose every step meets the environment conditions -/
+def EnvHist : AState → List Op → Prop
+  | _, [] => True
+  | s, op :: ops => EnvOK s op ∧ op.plain = true ∧ EnvHist (step s op).1 ops
+
+/-- **C08 / I1 ∧ I2 ∧ I3 for all histories** (joint induction: I2 and I3 use I1) -/
+theorem C08_I1_I2_I3_all_histories (s : AState) (ops : List Op) (h1 : Inv1 s) (h2 : Inv2 s) (h3 : Inv3 s)
+    (he : EnvHist s ops) : Inv1 (run s ops) ∧ Inv2 (run s ops) ∧ Inv3 (run s ops) := by
+  induction ops generalizing s with
+  | nil => exact ⟨h1, h2, h3⟩
+  | cons op ops ih =>
+    obtain ⟨henv, hp, hrest⟩ := he
+    have hop := opOK_plain s.key op hp
+    exact ih _ (Inv1.step h1 op hop) (Inv2.step h2 h1 op henv) (Inv3.step h3 h1 op hop) hrest
+
+/-- **C08 / I2 for all histories**: after every history of user actions (accepted or refused), confirmations,
+admissible spend notifications on any live watcher, direct handler calls in any state, blocks, staged /
+finalised / dropped batches, watch-matched calls and restarts at any position, the stored account is watched
+for the on-chain event its state is waiting for. -/
+theorem C08_I2_all_histories (k : Nat) (ops : List Op) (he : EnvHist (AState.init k) ops) :
+    Inv2 (run (AState.init k) ops) :=
+  (C08_I1_I2_I3_all_histories _ ops (C08_inv_init k) (inv2_none _ rfl)
+    ⟨rfl, fun a t h => by simp [AState.init] at h⟩ he).2.1
+
+/-- non-vacuity of `EnvHist`: a history with funding, confirmation, renewal, expiry, closure and restarts -/
+example : EnvHist (AState.init 1) [.init 100000 1200 0 1000 (some (7, 0)), .restart true none, .conf 0 1003,
+    .modify .renew ⟨99000, true, 1300, 0, 1004, 8, 0, true⟩, .block 1400, .confDirect 1401, .restart true none,
+    .close 1402 9 true true, .watchMatched] := by
+  simp [EnvHist, EnvOK, Op.plain]
 
 /-- non-vacuity: restart of an open account re-arms spend and expiry watchers -/
 example :
